@@ -2,6 +2,7 @@
 
 use proc_macro2::TokenStream;
 use quote::quote;
+use syn::ext::IdentExt;
 
 use crate::{Data, DeriveTrait, DeriveWhere, Item, SimpleType, SplitGenerics, TraitImpl};
 
@@ -42,7 +43,7 @@ impl TraitImpl for Debug {
 		data: &Data,
 	) -> TokenStream {
 		let self_pattern = &data.self_pattern();
-		let debug_name = data.ident.to_string();
+		let debug_name = data.ident.unraw().to_string();
 
 		match data.simple_type() {
 			SimpleType::Struct(_) => {
